@@ -307,7 +307,7 @@ class FieldValueComponentKeyValueBase(FieldValueComponentBase):
         cls._check_name(parser['name'])
 
         if cls.get_canonical_name():
-            parser.parse_separator('=')
+            parser.parse_string('separator', '=')
         cls._parse_value(parser)
         parsed_value = parser['value']
         if cls.get_canonical_name():
